@@ -418,7 +418,10 @@ impl<'a> Converter<'a> {
     }
 
     fn emit_always_body(&mut self, node: &RefNode<'a>) {
-        if let Some(s) = unwrap_node!(node.clone(), StatementOrNull) {
+        // The body of an always construct is a `Statement` (not a
+        // `StatementOrNull`): take it as a whole so that neither a body without
+        // `begin ... end` nor the statements after the first one are lost.
+        if let Some(s) = unwrap_node!(node.clone(), Statement) {
             self.emit_statement(&s);
         }
     }
